@@ -346,19 +346,20 @@ var (
 )
 
 func loadKnown() {
-	p := os.Getenv("VERIF_KNOWN")
-	if p == "" {
-		return
-	}
-	b, err := os.ReadFile(p)
-	if err != nil {
-		return
-	}
-	var f struct {
-		Findings []Finding `json:"findings"`
-	}
-	if json.Unmarshal(b, &f) == nil {
-		known = f.Findings
+	for _, p := range strings.Split(os.Getenv("VERIF_KNOWN"), string(os.PathListSeparator)) {
+		if p == "" {
+			continue
+		}
+		b, err := os.ReadFile(p)
+		if err != nil {
+			continue
+		}
+		var f struct {
+			Findings []Finding `json:"findings"`
+		}
+		if json.Unmarshal(b, &f) == nil {
+			known = append(known, f.Findings...)
+		}
 	}
 }
 
